@@ -18,6 +18,7 @@ _PROP_ENGINE = {
 # properties additionally explored at master level (the ZooKeeper -> model
 # path: Loader parsing, reload_server, restore_placement, fail-over)
 _MULTI = {'C02': 0.2, 'C01': 0.2, 'C03': 0.2, 'C04': 0.15, 'C05': 0.2, 'C06': 0.15,
+          'C07': 0.15,
           'C08': 0.2}
 _CACHE = {}
 
